@@ -994,7 +994,13 @@ class FusedLoc(ParametrizedAttribute, BuiltinAttribute):
             printer.print_string("fused")
             if not isinstance(self.metadata, NoneAttr):
                 printer.print_string("<")
-                printer.print_attribute(self.metadata)
+                # The metadata is an ordinary attribute, not a nested location: a
+                # location inside it needs its own `loc(...)` to parse back.
+                printer.printing_location = False
+                try:
+                    printer.print_attribute(self.metadata)
+                finally:
+                    printer.printing_location = True
                 printer.print_string(">")
             printer.print_attribute(self.locations)
 
